@@ -44,6 +44,12 @@ TECH = {
          "Exploration over all 10 ordered version pairs; the alphabet is restricted to the older table and to the statement's exclusions, so any difference is a violation."),
 }
 NOTES = {}
+SWEEP_NOTE = " + the shared environment sweep (one event of every kind x transport kind / logging / warnings / bystander gateway / registry file / eager tasks, also under python -O) and the hidden-switch sweep"
+for _pid in ("C03", "C04", "C05", "C06", "C07", "C10", "C11", "C12"):
+    TECH[_pid] = (TECH[_pid][0] + SWEEP_NOTE, TECH[_pid][1])
+TECH["C19"] = (TECH["C19"][0] + " + tour events under DEBUG / strict warnings / real transports and the hidden-switch sweep per pair", TECH["C19"][1])
+TECH["C13"] = (TECH["C13"][0] + "; round trips also under python -O", TECH["C13"][1])
+TECH["C14"] = (TECH["C14"][0] + "; special paths and mutated contents also under python -O and with warnings as errors", TECH["C14"][1])
 props = [json.loads(l) for l in open("/verif/properties.jsonl")]
 checks, na = [], []
 for p in props:
